@@ -23,6 +23,9 @@ def run(ctx, replay=None):
     else:
         kernlib.mc_replay(ctx, "KernelMC_c01.cfg", {"Delays = {0, 1}": "Delays = {0, 1, 2}"}, label="KernelMC/c01 3x2 delays 0..2")
         kernlib.mc_replay(ctx, "KernelMC_c01.cfg", {"MaxProc = 3": "MaxProc = 2", "MaxOps = 2": "MaxOps = 3"}, label="KernelMC/c01 2x3")
+        # beyond the exhaustive bound: random deep behaviours of the same specification (TLC -simulate), replayed likewise
+        kernlib.mc_replay(ctx, "KernelMC_c01.cfg", {"MaxProc = 3": "MaxProc = 4", "MaxOps = 2": "MaxOps = 4", "MaxEv = 9": "MaxEv = 22", "Delays = {0, 1}": "Delays = {0, 1, 2}"},
+                          label="KernelMC/c01 simulate 4 procs x 4-5 ops", simulate=4000, depth=400)
         kernlib.gen_validate(ctx, 20000, KINDS)
         kernlib.gen_validate(ctx, 5000, KINDS, max_procs=6, max_ops=8, max_events=40, label="generated-large")
         kernlib.gen_validate(ctx, 10000, KINDS, label="generated-float-delays", **{"float": kernlib.FLOAT})
